@@ -89,6 +89,43 @@ func MediaSeg(kind string, seq uint32, dts uint64, dur uint32, seed byte, styp b
 	return buf.Bytes(), nil
 }
 
+// MediaSegTwoChunks builds a segment of two moof+mdat chunks whose sample durations are carried as tfhd defaults that
+// differ between the chunks: the first half of dur in samples of the kind's sample duration, the second half in samples 5/4 as
+// long (dur must be a multiple of 10 sample durations).
+func MediaSegTwoChunks(kind string, seq uint32, dts uint64, dur uint32, seed byte, styp bool) ([]byte, error) {
+	tk := Kinds[kind]
+	if dur%(10*tk.SampleDur) != 0 {
+		return MediaSeg(kind, seq, dts, dur, seed, styp)
+	}
+	var seg *mp4.MediaSegment
+	if styp {
+		seg = mp4.NewMediaSegment()
+	} else {
+		seg = mp4.NewMediaSegmentWithoutStyp()
+	}
+	t := dts
+	for ci, d := range []uint32{tk.SampleDur, tk.SampleDur * 5 / 4} {
+		fr, err := mp4.CreateFragment(seq, 1)
+		if err != nil {
+			return nil, err
+		}
+		seg.AddFragment(fr)
+		for i := uint32(0); i < dur/2/d; i++ {
+			data := []byte{seed, byte(seq), byte(seq >> 8), byte(i), byte(0xA0 + ci)}
+			fr.AddFullSample(mp4.FullSample{Sample: mp4.Sample{Flags: mp4.SyncSampleFlags, Dur: d, Size: uint32(len(data))}, DecodeTime: t, Data: data})
+			t += uint64(d)
+		}
+		if err := fr.Moof.Traf.OptimizeTfhdTrun(); err != nil {
+			return nil, err
+		}
+	}
+	var buf bytes.Buffer
+	if err := seg.Encode(&buf); err != nil {
+		return nil, err
+	}
+	return buf.Bytes(), nil
+}
+
 type Receiver struct {
 	R       *rxapp.Receiver
 	Router  http.Handler
